@@ -12,18 +12,18 @@ func init() {
 	zz.B58Encode = func(payload []byte, version byte) string { return base58.CheckEncode(payload, version) }
 }
 
-const dataPkg = "github.com/regen-network/regen-ledger/x/data/v3"
+const zzvDataPkg = "github.com/regen-network/regen-ledger/x/data/v3"
 
 // The validators loop over the extension characters; their paths are merged so that each
 // caller forks once on "valid or not" instead of once per character class.
-func mergeValidators() {
-	zz.MergeCallee("(*" + dataPkg + ".ContentHash_Raw).Validate")
-	zz.MergeCallee("(*" + dataPkg + ".ContentHash_Graph).Validate")
-	zz.MergeCallee("(" + dataPkg + ".ContentHash).Validate")
+func zzvMergeValidators() {
+	zz.MergeCallee("(*" + zzvDataPkg + ".ContentHash_Raw).Validate")
+	zz.MergeCallee("(*" + zzvDataPkg + ".ContentHash_Graph).Validate")
+	zz.MergeCallee("(" + zzvDataPkg + ".ContentHash).Validate")
 }
 
-func hashLen() int {
-	mergeValidators()
+func zzvHashLen() int {
+	zzvMergeValidators()
 	lo := zz.Bound("hash_lo", 20)
 	hi := zz.Bound("hash_hi", 64)
 	step := zz.Bound("hash_step", 1)
@@ -34,17 +34,17 @@ func hashLen() int {
 	return n
 }
 
-func extLen() int { return 2 + zz.NondetChoice("extlen", 5) }
+func zzvExtLen() int { return 2 + zz.NondetChoice("extlen", 5) }
 
-func nondetRaw(label string, n int) *ContentHash_Raw {
+func zzvNondetRaw(label string, n int) *ContentHash_Raw {
 	return &ContentHash_Raw{
 		Hash:            zz.NondetBytes(label+".hash", n),
 		DigestAlgorithm: zz.NondetU32(label + ".alg"),
-		FileExtension:   zz.NondetString(label+".ext", extLen()),
+		FileExtension:   zz.NondetString(label+".ext", zzvExtLen()),
 	}
 }
 
-func nondetGraph(label string, n int) *ContentHash_Graph {
+func zzvNondetGraph(label string, n int) *ContentHash_Graph {
 	return &ContentHash_Graph{
 		Hash:                      zz.NondetBytes(label+".hash", n),
 		DigestAlgorithm:           zz.NondetU32(label + ".alg"),
@@ -53,18 +53,18 @@ func nondetGraph(label string, n int) *ContentHash_Graph {
 	}
 }
 
-func rawEq(a, b *ContentHash_Raw) bool {
+func zzvRawEq(a, b *ContentHash_Raw) bool {
 	return zz.And(zz.And(zz.BytesEq(a.Hash, b.Hash), a.DigestAlgorithm == b.DigestAlgorithm), zz.StrEq(a.FileExtension, b.FileExtension))
 }
 
-func graphEq(a, b *ContentHash_Graph) bool {
+func zzvGraphEq(a, b *ContentHash_Graph) bool {
 	return zz.And(zz.And(zz.BytesEq(a.Hash, b.Hash), a.DigestAlgorithm == b.DigestAlgorithm),
 		zz.And(a.CanonicalizationAlgorithm == b.CanonicalizationAlgorithm, a.MerkleTree == b.MerkleTree))
 }
 
 // (a) a valid raw hash survives ToIRI -> ParseIRI unchanged
 func VerifHarness_C15_RawRoundTrip() {
-	h := nondetRaw("h", hashLen())
+	h := zzvNondetRaw("h", zzvHashLen())
 	zz.Assume(h.Validate() == nil)
 	iri, err := h.ToIRI()
 	zz.Assert(err == nil, "C15 ToIRI succeeds on a valid raw hash")
@@ -78,14 +78,14 @@ func VerifHarness_C15_RawRoundTrip() {
 	}
 	zz.Assert(back.Graph == nil && back.Raw != nil, "C15 raw IRI parses back as a raw hash")
 	if back.Raw != nil {
-		zz.Assert(rawEq(back.Raw, h), "C15 raw round trip returns the identical content hash")
+		zz.Assert(zzvRawEq(back.Raw, h), "C15 raw round trip returns the identical content hash")
 	}
 	zz.Reach("raw round trip")
 }
 
 // (a) a valid graph hash survives ToIRI -> ParseIRI unchanged
 func VerifHarness_C15_GraphRoundTrip() {
-	h := nondetGraph("h", hashLen())
+	h := zzvNondetGraph("h", zzvHashLen())
 	zz.Assume(h.Validate() == nil)
 	iri, err := h.ToIRI()
 	zz.Assert(err == nil, "C15 ToIRI succeeds on a valid graph hash")
@@ -99,39 +99,39 @@ func VerifHarness_C15_GraphRoundTrip() {
 	}
 	zz.Assert(back.Raw == nil && back.Graph != nil, "C15 graph IRI parses back as a graph hash")
 	if back.Graph != nil {
-		zz.Assert(graphEq(back.Graph, h), "C15 graph round trip returns the identical content hash")
+		zz.Assert(zzvGraphEq(back.Graph, h), "C15 graph round trip returns the identical content hash")
 	}
 	zz.Reach("graph round trip")
 }
 
 // (b) two different valid content hashes never share an IRI
 func VerifHarness_C15_InjectiveRawRaw() {
-	n := hashLen()
-	h1, h2 := nondetRaw("h1", n), nondetRaw("h2", n)
+	n := zzvHashLen()
+	h1, h2 := zzvNondetRaw("h1", n), zzvNondetRaw("h2", n)
 	zz.Assume(h1.Validate() == nil)
 	zz.Assume(h2.Validate() == nil)
 	i1, _ := h1.ToIRI()
 	i2, _ := h2.ToIRI()
-	zz.Assert(zz.Implies(zz.StrEq(i1, i2), rawEq(h1, h2)), "C15 raw hashes with the same IRI are identical")
+	zz.Assert(zz.Implies(zz.StrEq(i1, i2), zzvRawEq(h1, h2)), "C15 raw hashes with the same IRI are identical")
 	zz.Reach("raw/raw")
 }
 
 func VerifHarness_C15_InjectiveGraphGraph() {
-	n := hashLen()
-	h1, h2 := nondetGraph("h1", n), nondetGraph("h2", n)
+	n := zzvHashLen()
+	h1, h2 := zzvNondetGraph("h1", n), zzvNondetGraph("h2", n)
 	zz.Assume(h1.Validate() == nil)
 	zz.Assume(h2.Validate() == nil)
 	i1, _ := h1.ToIRI()
 	i2, _ := h2.ToIRI()
-	zz.Assert(zz.Implies(zz.StrEq(i1, i2), graphEq(h1, h2)), "C15 graph hashes with the same IRI are identical")
+	zz.Assert(zz.Implies(zz.StrEq(i1, i2), zzvGraphEq(h1, h2)), "C15 graph hashes with the same IRI are identical")
 	zz.Reach("graph/graph")
 }
 
 func VerifHarness_C15_InjectiveRawGraph() {
 	// a raw hash of n+2 bytes and a graph hash of n bytes have payloads of equal length
-	n := hashLen()
+	n := zzvHashLen()
 	zz.Assume(n+2 <= 64)
-	h1, h2 := nondetRaw("h1", n+2), nondetGraph("h2", n)
+	h1, h2 := zzvNondetRaw("h1", n+2), zzvNondetGraph("h2", n)
 	zz.Assume(h1.Validate() == nil)
 	zz.Assume(h2.Validate() == nil)
 	i1, _ := h1.ToIRI()
@@ -143,11 +143,11 @@ func VerifHarness_C15_InjectiveRawGraph() {
 // (c) any IRI the parser accepts (and whose hash validates) re-encodes to the same string
 func VerifHarness_C15_ParseThenEncode() {
 	// payload: type byte + algorithm bytes + hash
-	mergeValidators()
-	n := hashLen() + 1 + zz.NondetChoice("extra", 4)
+	zzvMergeValidators()
+	n := zzvHashLen() + 1 + zz.NondetChoice("extra", 4)
 	payload := zz.NondetBytes("payload", n)
 	ver := zz.NondetU8("version")
-	ext := zz.NondetString("ext", extLen())
+	ext := zz.NondetString("ext", zzvExtLen())
 	iri := "regen:" + zz.B58String(payload, ver) + "." + ext
 	ch, err := ParseIRI(iri)
 	if err != nil {
